@@ -570,7 +570,9 @@ def prep(args):
         hists = histories_for(full, ci, seed)
         line, S = ser_lattice_arrays(*arr_v)
         want_adjm = "1" if len(pos) <= 40 else "0"
-        out["lines"].append("c02 " + line + f" {want_adjm} {len(hists)} " + " ".join(f"{len(h)} " + " ".join(map(str, h)) for h in hists))
+        # the model's own cache run (history independence is a theorem; this only re-checks the extracted [run]) on small lattices
+        mh = hists if len(pos) <= 60 else []
+        out["lines"].append("c02 " + line + f" {want_adjm} {len(mh)} " + " ".join(f"{len(h)} " + " ".join(map(str, h)) for h in mh))
         out["items"].append({"arr": arr, "variant": variant, "hists": hists, "S": S, "case": c, "full": full, "arr_v": arr_v})
     return out
 
